@@ -281,7 +281,7 @@ class RFCOMM_Frame:
             length >>= 1
             value = data[2:]
         else:
-            length = (data[3] << 7) & (length >> 1)
+            length = (data[2] << 7) | (length >> 1)
             value = data[3 : 3 + length]
 
         return (mcc_type, c_r, value)
